@@ -392,7 +392,10 @@ func (g *c12Gen) program(class string) c12Program {
 	case "analytic":
 		fn := g.pick("ROW_NUMBER() OVER (PARTITION BY k ORDER BY v, id)", "RANK() OVER (PARTITION BY k ORDER BY v)", "DENSE_RANK() OVER (ORDER BY k)",
 			"SUM(v) OVER (PARTITION BY k)", "AVG(f) OVER (PARTITION BY s)", "LAG(v) OVER (PARTITION BY k ORDER BY id)", "FIRST_VALUE(id) OVER (PARTITION BY n ORDER BY v, id)",
-			"NTILE(4) OVER (PARTITION BY k ORDER BY id)", "SUM(v) OVER (PARTITION BY k ORDER BY id ROWS BETWEEN 2 PRECEDING AND CURRENT ROW)", "CUME_DIST() OVER (PARTITION BY k ORDER BY v)")
+			"NTILE(4) OVER (PARTITION BY k ORDER BY id)", "SUM(v) OVER (PARTITION BY k ORDER BY id ROWS BETWEEN 2 PRECEDING AND CURRENT ROW)", "CUME_DIST() OVER (PARTITION BY k ORDER BY v)",
+			// arguments that are evaluated without a current record must not see whatever record the goroutine handled last
+			"LAG(v, 1, n) OVER (PARTITION BY k ORDER BY id)", "LEAD(s, 2, k) OVER (PARTITION BY n ORDER BY id)", "NTH_VALUE(v, 2) OVER (PARTITION BY k ORDER BY id)",
+			"LISTAGG(s, '/') OVER (PARTITION BY k ORDER BY id)", "COUNT(DISTINCT v) OVER (PARTITION BY n)")
 		fn2 := g.pick("", ", MAX(v) OVER (PARTITION BY n) AS m2", ", ROW_NUMBER() OVER (ORDER BY id DESC) AS r2")
 		p.SQL = fmt.Sprintf("SELECT id, k, %s AS a1%s FROM %s WHERE %s", fn, fn2, t.Name, g.pred(""))
 	case "setop":
